@@ -100,6 +100,8 @@ func runStreamCase(c streamCase) error {
 			// two subscribers join mid-history: their seeds are the contents now, with the stored change times
 			r.OpenSub(rlib.SubSpec{Backpressure: true})
 			r.OpenSub(rlib.SubSpec{Backpressure: true, ReadMask: &fieldmaskpb.FieldMask{Paths: []string{"c"}}})
+			// ... and one of the original subscribers leaves
+			r.CancelSub(1)
 		}
 		okBefore := r.OKWrites
 		op := ops[i]
